@@ -12,8 +12,7 @@ IsHexDigit(c) == IsDigit(c) \/ (c >= 97 /\ c <= 102) \/ (c >= 65 /\ c <= 70)
 HexVal(c) == IF IsDigit(c) THEN c - 48 ELSE IF c >= 97 THEN c - 87 ELSE c - 55
 AllHex(cs) == \A i \in 1..Len(cs) : IsHexDigit(cs[i])
 AllDigits(cs) == cs # <<>> /\ \A i \in 1..Len(cs) : IsDigit(cs[i])
-RECURSIVE HexBytes(_)
-HexBytes(cs) == IF cs = <<>> THEN <<>> ELSE <<16 * HexVal(cs[1]) + HexVal(cs[2])>> \o HexBytes(SubSeq(cs, 3, Len(cs)))
+HexBytes(cs) == [i \in 1..(Len(cs) \div 2) |-> 16 * HexVal(cs[2 * i - 1]) + HexVal(cs[2 * i])]
 
 \* canonical decimal: optional '-', digits, no leading zero (zero itself is "0")
 IsCanonDec(cs) ==
@@ -62,4 +61,53 @@ AssembleFrom(toks, i) ==
              rest == AssembleFrom(toks, i + 1)
          IN IF ~t[1] \/ ~rest[1] THEN <<FALSE, <<>>>> ELSE <<TRUE, t[2] \o rest[2]>>
 AssembleExec(toks) == AssembleFrom(toks, 1)
+
+(******************************* btcc (C07) **********************************)
+IsWs(c) == c \in {32, 9, 10, 13}
+\* split script text into tokens: white space separates, [ ... ] groups are kept whole, # starts a comment to the end of the line
+RECURSIVE SkipLine(_, _)
+SkipLine(cs, i) == IF i > Len(cs) \/ cs[i] \in {10, 13} THEN i ELSE SkipLine(cs, i + 1)
+RECURSIVE MatchBracket(_, _, _)
+MatchBracket(cs, i, depth) == \* index of the bracket closing the group opened before i, or 0
+    IF i > Len(cs) THEN 0
+    ELSE IF cs[i] = 91 THEN MatchBracket(cs, i + 1, depth + 1)
+    ELSE IF cs[i] = 93 THEN (IF depth = 1 THEN i ELSE MatchBracket(cs, i + 1, depth - 1))
+    ELSE MatchBracket(cs, i + 1, depth)
+RECURSIVE LexFrom(_, _, _)
+LexFrom(cs, i, start) == \* start = 0: between tokens; otherwise index where the current token began.  Result <<ok, tokens>>
+    IF i > Len(cs) THEN <<TRUE, IF start = 0 THEN <<>> ELSE <<SubSeq(cs, start, Len(cs))>>>>
+    ELSE IF cs[i] = 91 /\ start = 0 THEN
+        LET j == MatchBracket(cs, i + 1, 1) IN
+        IF j = 0 THEN <<FALSE, <<>>>>
+        ELSE LET rest == LexFrom(cs, j + 1, 0) IN <<rest[1], <<SubSeq(cs, i, j)>> \o rest[2]>>
+    ELSE IF IsWs(cs[i]) \/ cs[i] = 35 THEN
+        LET nexti == IF cs[i] = 35 THEN SkipLine(cs, i) ELSE i + 1
+            rest == LexFrom(cs, nexti, 0)
+        IN <<rest[1], (IF start = 0 THEN <<>> ELSE <<SubSeq(cs, start, i - 1)>>) \o rest[2]>>
+    ELSE LexFrom(cs, i + 1, IF start = 0 THEN i ELSE start)
+Lex(cs) == LexFrom(cs, 1, 0)
+
+\* one token (character codes) -> <<ok, bytes>>
+RECURSIVE CompileToken(_)
+RECURSIVE CompileTokens(_, _)
+CompileTokens(toks, i) ==
+    IF i > Len(toks) THEN <<TRUE, <<>>>>
+    ELSE LET t == CompileToken(toks[i])
+             r == CompileTokens(toks, i + 1)
+         IN IF ~t[1] \/ ~r[1] THEN <<FALSE, <<>>>> ELSE <<TRUE, t[2] \o r[2]>>
+CompileToken(cs) ==
+    LET n == Len(cs) IN
+    IF cs = <<48, 120>> THEN <<TRUE, <<OP_0>>>>                                      \* 0x : the empty byte string
+    ELSE IF n > 1 /\ cs[1] = 91 /\ cs[n] = 93 THEN                                    \* [ sub-script ] : push of the compiled body
+        LET lx == Lex(SubSeq(cs, 2, n - 1)) IN
+        IF ~lx[1] THEN <<FALSE, <<>>>>
+        ELSE LET body == CompileTokens(lx[2], 1) IN IF ~body[1] THEN <<FALSE, <<>>>> ELSE <<TRUE, MinimalPushOf(body[2])>>
+    ELSE IF n <= 20 /\ IsCanonDec(cs) /\ FitsInt64(DecValue(cs)) THEN <<TRUE, PushNum(DecValue(cs))>>
+    ELSE LET o == NameToOpcode(cs) IN
+         IF o[1] THEN <<TRUE, <<o[2]>>>>
+         ELSE LET hx == IF n > 2 /\ cs[1] = 48 /\ cs[2] = 120 THEN SubSeq(cs, 3, n) ELSE cs IN
+              IF n % 2 = 0 /\ AllHex(hx) THEN <<TRUE, MinimalPushOf(HexBytes(hx))>>    \* the exact bytes, minimal push form
+              ELSE <<TRUE, RawPush(cs)>>                                                \* anything else: the text itself
+\* btcc: each command-line argument is one token
+Compile(tokens) == CompileTokens([i \in 1..Len(tokens) |-> StrToCodes(tokens[i])], 1)
 =============================================================================
